@@ -288,6 +288,14 @@ def monitorHist (sc : HScn) (entries : List String) : List (String × String) :=
             counted && !fin).foldl (fun acc c => acc + c.cost) 0
           if needs > bound then
             m := m.add "C03" "rejected-enqueue-keeps-demand:Shutdown" |>.add "C16" "enqueue-after-shutdown-changes-demand"
+          -- … and a batch that is still with its watcher (not returned, not timed out) stays in the figure: shutting
+          -- down writes nothing off
+          let inProgress := (m.calls.filter fun c =>
+            match c.delivered with
+            | some bi => (m.batches[bi]?.map fun b => !batchFinished sc b t).getD false
+            | none => false).foldl (fun acc c => acc + c.cost) 0
+          if needs < inProgress then
+            m := m.add "C03" "demand-undercount:after-shutdown" |>.add "C11" "write-off-time:before-the-limit-after-shutdown"
       m := { m with lastNeeds := if m.shutdownAt.isSome then some needs else none }
   return m.viols
 
